@@ -268,3 +268,142 @@ def chain_index_rule(chk, repo, rule, rel, qual, loop_var_hint):
     if not found:
         chk.note(f"{rule}: no `connect(f'..{{{loop_var_hint}-1}}..', f'..{{{loop_var_hint}}}..')` shape recognised in {qual}; structural index rule abstains")
     return found
+
+
+# ---------------------------------------------------------------------------
+# C08: blocking clause of model_count (def-use shape)
+# ---------------------------------------------------------------------------
+def blocking_clause_rule(chk, repo, rule, rel="sat.py", qual="model_count"):
+    from .astutil import func_params, local_assignments
+
+    fi = repo.func(rel, qual)
+    fn = fi.node
+    cparam = func_params(fn)[0]
+    assigns = local_assignments(fn)
+    call = None
+    for n in walk_no_nested(fn):
+        if isinstance(n, ast.Call) and method_name(n) == "add_clause" and len(n.args) == 1:
+            call = n
+    if call is None or not isinstance(call.args[0], ast.ListComp) or len(call.args[0].generators) != 1:
+        chk.note(f"{rule}: no `solver.add_clause([... for n in X])` shape in {qual}; structural rule abstains")
+        return False
+    comp = call.args[0]
+    gen = comp.generators[0]
+    it = gen.iter
+    src = it
+    if isinstance(it, ast.Name) and it.id in assigns and len(assigns[it.id]) == 1:
+        src = assigns[it.id][0]
+    ok_iter = isinstance(src, ast.Call) and dotted(src.func) == f"{cparam}.startpoints" and not src.args and not src.keywords and not gen.ifs
+    chk.ob(rule + ".ranges-over-startpoints", f"{rel}::{qual}::blocking clause iterates", ok_iter, file=rel, func=qual, line=call.lineno, fact={"iterates_over": norm(src)[:60]},
+           expect=f"{cparam}.startpoints() of the counted circuit (inputs and blackbox outputs), unfiltered")
+    elt = comp.elt
+    tgt = gen.target.id if isinstance(gen.target, ast.Name) else None
+    neg = isinstance(elt, ast.UnaryOp) and isinstance(elt.op, ast.USub)
+    sub = elt.operand if neg else elt
+    idx_ok = False
+    model_ok = False
+    if isinstance(sub, ast.Subscript):
+        sl = sub.slice
+        idx_ok = isinstance(sl, ast.BinOp) and isinstance(sl.op, ast.Sub) and isinstance(sl.right, ast.Constant) and sl.right.value == 1 and isinstance(sl.left, ast.Call) \
+            and method_name(sl.left) == "id" and len(sl.left.args) == 1 and isinstance(sl.left.args[0], ast.Name) and sl.left.args[0].id == tgt
+        mv = sub.value
+        if isinstance(mv, ast.Name) and mv.id in assigns:
+            model_ok = any(isinstance(v, ast.Call) and method_name(v) == "get_model" for v in assigns[mv.id])
+    chk.ob(rule + ".negated-model-literal", f"{rel}::{qual}::blocking literal", neg and idx_ok and model_ok, file=rel, func=qual, line=call.lineno,
+           fact={"element": norm(elt)[:80], "negated": neg, "index_is_id_minus_1": idx_ok, "from_get_model": model_ok}, expect="-model[variables.id(n) - 1] with model = solver.get_model()")
+    return True
+
+
+# ---------------------------------------------------------------------------
+# C04: miter construction template + gate algebra
+# ---------------------------------------------------------------------------
+def miter_template_rule(chk, repo, rule, rel="tx.py", qual="miter"):
+    from .astutil import func_params
+    from .gates import bool_gate
+    import itertools
+
+    fi = repo.func(rel, qual)
+    fn = fi.node
+    params = func_params(fn)
+    subs = []
+    adds = []
+    for n in walk_no_nested(fn):
+        if isinstance(n, ast.Call) and method_name(n) == "add_subcircuit" and len(n.args) >= 2 and isinstance(n.args[1], ast.Constant):
+            subs.append((norm(n.args[0]), n.args[1].value, n))
+        if isinstance(n, ast.Call) and method_name(n) == "add" and len(n.args) >= 2:
+            adds.append(n)
+    if len(subs) != 2:
+        chk.note(f"{rule}: expected two add_subcircuit(<circuit>, '<prefix>') calls in {qual}; structural template rule abstains")
+        return False
+    (a0, p0, n0), (a1, p1, n1) = subs
+    chk.ob(rule + ".two-copies", f"{rel}::{qual}::copies", a0 != a1 and p0 != p1 and {a0, a1} <= set(params), file=rel, func=qual, line=n0.lineno,
+           fact={"copies": [(a0, p0), (a1, p1)]}, expect="the two circuit parameters instantiated under two distinct prefixes")
+    pm = parents_map(fn)
+    comparator = tie = collector = None
+    for a in adds:
+        loops = enclosing(a, pm, (ast.For,))
+        tl = a.args[1]
+        fin = kwarg(a, "fanin", 2)
+        fout = kwarg(a, "fanout", 3)
+        if loops and isinstance(tl, ast.Constant) and tl.value == "input" and fout is not None:
+            tie = (a, fout, loops[0])
+        elif loops and fin is not None and isinstance(tl, ast.Constant):
+            comparator = (a, tl.value, fin, fout, loops[0])
+        elif not loops and kwarg(a, "output", 4) is not None:
+            collector = (a, tl)
+    if not (comparator and tie and collector):
+        chk.note(f"{rule}: tie / comparator / collector adds not recognised in {qual}; structural template rule abstains")
+        return False
+
+    def prefixes_in(listnode, loopvar):
+        out = set()
+        if isinstance(listnode, (ast.List, ast.Tuple)):
+            for e in listnode.elts:
+                t = fstring_template(e)
+                if t:
+                    for p in (p0, p1):
+                        if t == f"{p}_{{{loopvar}}}":
+                            out.add(p)
+        return out
+
+    lv = tie[2].target.id if isinstance(tie[2].target, ast.Name) else None
+    chk.ob(rule + ".tie-feeds-both-copies", f"{rel}::{qual}::tie", prefixes_in(tie[1], lv) == {p0, p1}, file=rel, func=qual, line=tie[0].lineno,
+           fact={"fanout": norm(tie[1])[:80]}, expect=f"each tied input drives its image in both copies ({p0}_n and {p1}_n)")
+    lv = comparator[4].target.id if isinstance(comparator[4].target, ast.Name) else None
+    chk.ob(rule + ".comparator-sees-both-copies", f"{rel}::{qual}::comparator", prefixes_in(comparator[2], lv) == {p0, p1}, file=rel, func=qual, line=comparator[0].lineno,
+           fact={"fanin": norm(comparator[2])[:80]}, expect=f"each comparator reads the endpoint's image in both copies")
+    # gate algebra
+    ctype = comparator[1]
+    tl = collector[1]
+    arms = {}
+    if isinstance(tl, ast.Constant):
+        arms = {1: tl.value, 2: tl.value, 3: tl.value}
+    elif isinstance(tl, ast.IfExp) and isinstance(tl.body, ast.Constant) and isinstance(tl.orelse, ast.Constant) and isinstance(tl.test, ast.Compare) and len(tl.test.ops) == 1 \
+            and isinstance(tl.test.comparators[0], ast.Constant) and isinstance(tl.test.left, ast.Call) and dotted(tl.test.left.func) == "len":
+        op, k0 = tl.test.ops[0], tl.test.comparators[0].value
+        for k in (1, 2, 3):
+            cond = (k > k0) if isinstance(op, ast.Gt) else (k >= k0) if isinstance(op, ast.GtE) else (k < k0) if isinstance(op, ast.Lt) else (k <= k0) if isinstance(op, ast.LtE) else (k == k0) if isinstance(op, ast.Eq) else None
+            if cond is None:
+                arms = {}
+                break
+            arms[k] = tl.body.value if cond else tl.orelse.value
+    if not arms:
+        chk.note(f"{rule}: collector type expression not recognised; gate-algebra rule abstains")
+        return True
+    bad = None
+    for k, col in arms.items():
+        for bits in itertools.product([False, True], repeat=2 * k):
+            xs, ys = bits[:k], bits[k:]
+            try:
+                got = bool_gate(col, [bool_gate(ctype, [x, y]) for x, y in zip(xs, ys)])
+            except (ValueError, TypeError):
+                got = None
+            want = any(x != y for x, y in zip(xs, ys))
+            if got != want:
+                bad = {"endpoints": k, "comparator": ctype, "collector": col, "copy0": xs, "copy1": ys, "sat": got, "expected": want}
+                break
+        if bad:
+            break
+    chk.ob(rule + ".gate-algebra", f"{rel}::{qual}::collector(comparator(...))", bad is None, file=rel, func=qual, line=collector[0].lineno,
+           fact=bad or {"comparator": ctype, "collector_by_endpoint_count": arms}, expect="collector over comparators == 'some endpoint differs' for 1, 2 and 3 endpoints")
+    return True
